@@ -11,7 +11,7 @@ CONSTANTS
   InitSets <- LeadInit
   MaxMsgs = 1
   MaxLen = 4
-  Dev <- AllDev
-  Store = "dict"
+  AllOpen <- AllKnown
+  Stores = {"dict", "pp"}
 INVARIANT TypeOK
 CHECK_DEADLOCK FALSE
